@@ -222,8 +222,8 @@ static void randomCase(Rng &rng, CaseResult &r, bool big) {
 
 int main(int argc, char **argv) {
   std::vector<vf::Part> parts;
-  parts.push_back({"c12.exhaustive6", [](uint64_t idx, Rng &, CaseResult &r) { exhaustiveCase(idx, r, 6); }, 600});
-  parts.push_back({"c12.exhaustive7", [](uint64_t idx, Rng &, CaseResult &r) { exhaustiveCase(idx, r, 7); }, 300});
+  parts.push_back({"c12.exhaustive6", [](uint64_t idx, Rng &, CaseResult &r) { exhaustiveCase(idx, r, 6); }, 30});
+  parts.push_back({"c12.exhaustive7", [](uint64_t idx, Rng &, CaseResult &r) { exhaustiveCase(idx, r, 7); }, 30});
   parts.push_back({"c12.random", [](uint64_t, Rng &rng, CaseResult &r) { randomCase(rng, r, false); }, 10});
   parts.push_back({"c12.big", [](uint64_t, Rng &rng, CaseResult &r) { randomCase(rng, r, true); }, 10});
   return vf::runMain(argc, argv, parts);
